@@ -637,7 +637,7 @@ func (w *world) failingUpdate(s Step) (*kit.Failure, string) {
 		// presence carried by an earlier pending change / to the
 		// authoritative presence map.
 		for i := range edits {
-			if edits[i].Op == "pset" {
+			if edits[i].Op == "pset" || edits[i].Op == "pmix" {
 				edits[i].Op = "rootset"
 				w.ev["excluded:F25"]++
 			}
